@@ -3,9 +3,9 @@
    every complete behaviour exported for replay against the real to_file (GEN). *)
 EXTENDS FileRun, TLC, Json
 VARIABLES fs, fault, off, hist,
-          pre      \* what is at the path before the call: nothing, a shorter file, a longer file (File::create truncates)
+          pre      \* what is at the path before the call: nothing, a shorter / longer / equally long file (File::create truncates, nothing of it may survive)
 vars == <<fs, fault, off, hist, pre>>
-PreStates == {"absent", "shorter", "longer"}
+PreStates == {"absent", "shorter", "longer", "samelen", "samehead"}     \* samelen: other bytes of the same length; samehead: the same length and the same leading bytes, a different tail
 Init == /\ fs = F_Init /\ hist = <<>>
         /\ fault \in Classes
         /\ off \in 0..L
